@@ -153,11 +153,18 @@ pub fn replay(path: &str, cfgs: Vec<((usize, usize, usize), ExploreFn)>) -> i32 
 pub fn main_with(cfgs: Vec<((usize, usize, usize), ExploreFn)>) {
     crate::util::install_panic_hook();
     let args: Vec<String> = std::env::args().collect();
-    let code = match args.get(1).map(|s| s.as_str()) {
+    let r = std::panic::catch_unwind(std::panic::AssertUnwindSafe(|| match args.get(1).map(|s| s.as_str()) {
         Some("--replay") => replay(&args[2], cfgs),
         Some("C08") => run(args.get(2).map(|s| s.as_str()).unwrap_or("quick"), cfgs),
         _ => {
             eprintln!("usage: sdmmc-mc-limits C08 <quick|thorough> | --replay <file>");
+            2
+        }
+    }));
+    let code = match r {
+        Ok(c) => c,
+        Err(_) => {
+            eprintln!("MACHINERY FAILURE (not a verdict): the harness panicked");
             2
         }
     };
